@@ -5,7 +5,7 @@
    silently; `Print Assumptions` lists the axioms it depends on (none are declared by this development). *)
 From Coq Require Import NArith List Bool String.
 From Octo Require Import Base.Bytes Crypto.Prims Lib.Framed Lib.Canon Model.Address Model.NonceGen Model.SsChunk Model.SsTcp Model.Trojan Model.Socks5 Model.Http Generated.Params Generated.Shared
-  Proofs.AddressFacts Proofs.NonceFacts Proofs.SsChunkRoundtrip Proofs.SsChunkCanon Proofs.SsTcpSafety Proofs.SsTcpRoundtrip Proofs.CodecLemmas Proofs.TrojanFacts Proofs.Socks5Facts Proofs.HttpFacts.
+  Proofs.AddressFacts Proofs.NonceFacts Proofs.SsChunkRoundtrip Proofs.SsChunkCanon Proofs.SsTcpSafety Proofs.SsTcpRoundtrip Proofs.CodecLemmas Proofs.TrojanFacts Proofs.Socks5Facts Proofs.HttpFacts Model.Vmess Proofs.VmessSafety Proofs.VmessFacts Model.SsUdp Proofs.SsUdpFacts.
 Import ListNotations.
 Set Printing Width 200.
 
@@ -53,6 +53,31 @@ Proof. vm_compute. discriminate. Qed.
 Theorem C10_vmess_window : (VMESS_AUTHID_WINDOW, VMESS_AUTHID_ACCEPT_IS_LE) = (120%N, true).
 Proof. vm_compute. reflexivity. Qed.
 
+(* VMess auth id honoured iff |ts - now| <= 120 (CRC valid) *)
+Definition C10_vmess_auth_window := @auth_window_iff.
+(* accept at exactly 120 *)
+Definition C10_vmess_accept_120 := @auth_window_accept_120_late.
+(* reject at 121 *)
+Definition C10_vmess_reject_121 := @auth_window_reject_121_late.
+(* a stale auth id is refused as unknown user *)
+Definition C10_vmess_stale_refused := @stale_auth_id_refused.
+(* VMess client: the response header opens under keys derived from the request and carries the request's authentication byte *)
+Definition C10_vmess_response_bound := @response_bound_to_request.
+(* wrong byte refused *)
+Definition C10_vmess_response_wrong_byte := @response_wrong_byte_refused.
+(* 2022 datagrams: accepted only with the expected type and |ts-now|<=30 *)
+Definition C10_udp_typed_and_fresh := @accepted_2022_typed_and_fresh.
+(* datagram boundaries 30 / 31 *)
+Definition C10_udp_time_boundary := @udp_time_boundary.
+
+Check @C10_vmess_auth_window.
+Check @C10_vmess_accept_120.
+Check @C10_vmess_reject_121.
+Check @C10_vmess_stale_refused.
+Check @C10_vmess_response_bound.
+Check @C10_vmess_response_wrong_byte.
+Check @C10_udp_typed_and_fresh.
+Check @C10_udp_time_boundary.
 Check @C10_accept_implies_fresh_and_typed.
 Check @C10_timestamp_window.
 Check @C10_boundary_exact.
@@ -81,3 +106,11 @@ Print Assumptions C10_cache_only_grows.
 Print Assumptions C10_constants_match_source.
 Print Assumptions C10_salt_ttl_covers_window.
 Print Assumptions C10_vmess_window.
+Print Assumptions C10_vmess_auth_window.
+Print Assumptions C10_vmess_accept_120.
+Print Assumptions C10_vmess_reject_121.
+Print Assumptions C10_vmess_stale_refused.
+Print Assumptions C10_vmess_response_bound.
+Print Assumptions C10_vmess_response_wrong_byte.
+Print Assumptions C10_udp_typed_and_fresh.
+Print Assumptions C10_udp_time_boundary.
